@@ -61,7 +61,7 @@ type c04Monitor struct {
 	Completed     int
 	tick          time.Duration
 	prevList      []string
-	healthyAfter  map[string]int
+	evalSince     map[string]time.Duration // instance|host -> begin of the instance's first list-evaluating iteration with the host away
 }
 
 type c04Iter struct {
@@ -79,7 +79,7 @@ type c04Iter struct {
 
 func newC04Monitor(sc *Scen, w int, ha []string) *c04Monitor {
 	m := &c04Monitor{sc: sc, w: w, ha: ha, it: map[string]*c04Iter{}, divergedSince: map[string]time.Duration{}, notReplSince: map[string]time.Duration{},
-		faulted: map[string]bool{}, tick: 5 * time.Second, healthyAfter: map[string]int{}}
+		faulted: map[string]bool{}, tick: 5 * time.Second, evalSince: map[string]time.Duration{}}
 	s := sc.S
 	s.W.Lock()
 	s.W.OnChange = append(s.W.OnChange, func(w *world.World) { m.mu.Lock(); m.evalLocked(w); m.mu.Unlock() })
@@ -195,7 +195,11 @@ func (m *c04Monitor) evalLocked(w *world.World) {
 			}
 		} else {
 			delete(m.notReplSince, h)
-			delete(m.healthyAfter, h)
+			for k := range m.evalSince {
+				if strings.HasSuffix(k, "|"+h) {
+					delete(m.evalSince, k)
+				}
+			}
 		}
 	}
 	ib, ibWhy := true, ""
@@ -316,13 +320,15 @@ func (m *c04Monitor) judgeEnd(w *world.World, inst string, it *c04Iter, how stri
 	if how != "cut" {
 		m.Completed++
 	}
-	if how == "completed" && !faulted {
-		// healthy completed iterations that began after a replica had been away for the whole delay
+	if how == "completed" && !faulted && it.wrote {
+		// the failure clock of the code is per process and starts at the first iteration that gets as far as evaluating
+		// the list while both the manager's probe and the host's own health record (refreshed every 5 s) are bad,
+		// i.e. up to one health-check interval after the ground-truth instant; iterations that end before the update
+		// (master considered failed, failed calls) do not move it
 		for h, since := range m.notReplSince {
-			// the failure clock of the code starts when both the manager's probe and the host's own health record
-			// (refreshed every 5 s) are bad, i.e. up to one health-check interval after the ground-truth instant
-			if it.begin > since+c04InactDelay+6*time.Second {
-				m.healthyAfter[h]++
+			k := inst + "|" + h
+			if _, ok := m.evalSince[k]; !ok && it.begin > since+6*time.Second {
+				m.evalSince[k] = it.begin
 			}
 		}
 	}
@@ -414,7 +420,7 @@ func (m *c04Monitor) onListWrite(w *world.World, r fakezk.Rec) {
 			m.sc.Violate("C04", "S3:diverged-replica-in-list", fmt.Sprintf("%s published %v which contains %s whose executed set has foreign transactions the master lacks (%s) since %.1fs, before the iteration began at %.1fs",
 				inst, V, h, srv.Executed.Minus(ms.Executed).OneLine(), since.Seconds(), it.begin.Seconds()))
 		}
-		if since, ok := m.notReplSince[h]; ok && m.healthyAfter[h] >= 2 && ms.Up {
+		if since, ok := m.notReplSince[h]; ok && ms.Up && m.evalSince[inst+"|"+h] > 0 && it.begin > m.evalSince[inst+"|"+h]+c04InactDelay+m.tick+time.Second {
 			m.sc.Violate("C04", "S3:not-replicating-replica-in-list", fmt.Sprintf("%s published %v which contains %s, not replicating from the master since %.1fs (now %.1fs, inactivation delay %v)",
 				inst, V, h, since.Seconds(), now.Seconds(), c04InactDelay))
 		}
